@@ -24,6 +24,11 @@
           entry, and every variable u of M is to the left of its position at split entry by at least the violation of
           every in-constraint of M
      32768 if mergeLeft(l) returns without having merged r, every slack >= 0 exactly
+     65536 at every state of mergeLeft(l)'s loop inside split (current block M) the heap invariant HW of
+          Vpsc/StaticInHeap.v: time stamps (constraint stamps <= counter, block stamps <= counter, a constraint is stale
+          by time stamp only if its left end is in M), lengths, and every in-heap of an inhabited block is duplicate-free,
+          ordered on its current keys (Rcur), sound (right end in the block) and complete (every in-constraint of the
+          block is in it); the root delivered by findMinInConstraint has a current key
    Bits 4, 8 and 256 are the NAIVE candidates; they are FALSE on reachable DAG states (r is merged into l's block by
    mergeLeft(l) when a constraint from r's side to l's side becomes violated, the merged block then moves right and its
    out-constraints are repaired by mergeRight) - bits 1024/2048 are the invariants that do hold. *)
@@ -71,6 +76,42 @@ Definition modeAb (s : sst) (M : nat) (rv : nat) (Yb : list Q) : bool :=
      else Qeqb (ycoord s u) (nth u Yb 0))
     (seq 0 (length (svars (base s)))).
 
+(* boolean form of the heap invariant HW / MLH of Vpsc/StaticInHeap.v (bit 65536) *)
+Fixpoint nodupb_r (l : list nat) : bool :=
+  match l with [] => true | a :: t => negb (mem a t) && nodupb_r t end.
+Definition rcurb (s : sst) (c x : nat) : bool :=
+  match skey s c, skey s x with Some a, Some b => Qleb a b | _, _ => true end.
+Fixpoint hordb (s : sst) (p : ph) : bool :=
+  match p with
+  | PH c kids => forallb (rcurb s c) (flat_map ph_elems kids) && forallb (hordb s) kids
+  end.
+Definition hordhb (s : sst) (h : heap) : bool := match h with None => true | Some p => hordb s p end.
+Definition HWb (s : sst) (M : nat) (c : option nat) : bool :=
+  let m := length (scons (base s)) in
+  let nb := length (blocks (base s)) in
+  forallb (fun x => Nat.leb (ctime_of s x) (ctr s)) (seq 0 m) &&
+  forallb (fun B => Nat.leb (btime_of s B) (ctr s)) (seq 0 (length (btime s))) &&
+  forallb (fun x => Nat.eqb (lblk s x) M || Nat.leb (btime_of s (lblk s x)) (ctime_of s x)) (seq 0 m) &&
+  Nat.eqb (length (ctime s)) m && Nat.leb nb (length (bin s)) && Nat.leb nb (length (btime s)) &&
+  forallb (fun B =>
+    negb (inhabitedb (base s) B) ||
+    match bin_of s B with
+    | None => true
+    | Some h =>
+        nodupb_r (heap_elems h) && hordhb s h &&
+        forallb (fun x => Nat.ltb x m && Nat.eqb (rblk s x) B) (heap_elems h) &&
+        forallb (fun x => mem x (heap_elems h)) (in_cons s B)
+    end) (seq 0 nb) &&
+  inhabitedb (base s) M &&
+  match bin_of s M with
+  | Some h => match c, heap_min h with
+              | Some c0, Some c1 => Nat.eqb c0 c1 && match skey s c0 with Some _ => true | None => false end
+              | None, None => true
+              | _, _ => false
+              end
+  | None => false
+  end.
+
 (* ml_loop inside split, with J (and root-min, in-heap completeness, mode A) evaluated at every tested state;
    rv = a variable of the right half, Yb = Y coordinates at split entry *)
 Fixpoint ml_loop_J (fuel : nat) (s : sst) (r : nat) (c : option nat) (rv : nat) (Yb : list Q) (mask : nat) : res sst * nat :=
@@ -78,7 +119,7 @@ Fixpoint ml_loop_J (fuel : nat) (s : sst) (r : nat) (c : option nat) (rv : nat) 
   | O => (OutOfFuel, mask)
   | S f =>
       let mask1 := mor mask (bitv (Jb s r) 1024 + bitv (root_minb s r c) 4096 + bitv (in_heapb s r) 8192 +
-                             bitv (modeAb s r rv Yb) 16384)%nat in
+                             bitv (modeAb s r rv Yb) 16384 + bitv (HWb s r c) 65536)%nat in
       match c with
       | None => (Ok s, mask1)
       | Some c0 =>
